@@ -15,7 +15,7 @@ RULE = ("random deterministic bottom-up automata over a ranked alphabet (2-5 let
         "rules) in the styles rich (trim by construction), complete (total table), dense, grow, sparse, acyclic, chain, "
         "with cloned (Nerode-equivalent) states, one perturbed rule, unproductive tails and unproductive loops, "
         "unreachable states, none/some/all states final; alone or in pairs over the same alphabet (second automaton "
-        "independent or a renamed and perturbed copy of the first).  Observable: acceptance (for product/map_states "
+        "independent, a renamed and perturbed copy of the first, the same transition table with other final states, or the first automaton itself as an object).  Observable: acceptance (for product/map_states "
         "also the run state) of every tree of a set made of all trees up to depth 3-4 (randomly thinned above the "
         "cap) plus trees grown along the rules of the automata, for the original automaton (DFTA.read) and for the "
         "result of reduce / read_product / read_union / map_states (injective table) / minimise (on an independently "
@@ -479,9 +479,26 @@ def gen(rng, tier):
                 else:
                     ms, mr = 7, 22
                 A = gen_aut(rng, ar, ms, mr)
-                B = variant_of(rng, A, ar) if rng.random() < 0.5 else gen_aut(rng, ar, ms, mr)
+                r = rng.random()
+                same = False
+                if r < 0.12:
+                    # the same transition table with other final states (equal tables are not equal automata)
+                    sts = sorted({d for _, a, d in A[0]})
+                    fin = sorted(q for q in sts if rng.random() < 0.5)
+                    if fin == sorted(A[1]) and sts:
+                        fin = [q for q in sts if q not in A[1]] or sts[:1]
+                    B = [A[0], fin]
+                elif r < 0.17:
+                    B, same = A, True          # the automaton combined with itself (same object)
+                elif r < 0.55:
+                    B = variant_of(rng, A, ar)
+                else:
+                    B = gen_aut(rng, ar, ms, mr)
                 trees = gen_trees(rng, ar, [A, B], tier)
-                cases.append({"kind": kind, "A": A, "B": B, "trees": trees, "names": names})
+                c = {"kind": kind, "A": A, "B": B, "trees": trees, "names": names}
+                if same:
+                    c["same_object"] = 1
+                cases.append(c)
             elif kind == "map_states":
                 A = gen_aut(rng, ar)
                 sts = sorted({d for _, a, d in A[0]} | {x for _, a, _ in A[0] for x in a} | set(A[1]))
